@@ -39,9 +39,11 @@ theorem C33_none_iff : normalizeCfg keep trail U input limit = none ↔ cleanedT
   simp only
   constructor
   · intro h
-    by_contra hne
-    rw [if_neg (by simpa using hne)] at h
-    exact fallback_ne_none _ _ _ h
+    by_cases hne : cleanedText keep U input = []
+    · exact hne
+    · exfalso
+      rw [if_neg (by simpa using hne)] at h
+      exact fallback_ne_none _ _ _ h
   · intro h
     rw [if_pos (by rw [h]; rfl)]
 
